@@ -63,6 +63,47 @@ def _feed(args):
             "outcome": outcome, "bad_input": bad, "others_unchanged": bool(others)}
 
 
+def _feed_multi(args):
+    """One MultiCtl fanning out to several targets, some links unmapped (also BEFORE mapped ones)."""
+    (targets, gain, quant, seed) = args       # targets: [(type, ctl name, wmin, wmax, unmapped)]
+    from ..common import setup_repo_path
+    setup_repo_path()
+    import rv.api as api
+    import rv.modules
+    p = api.Project()
+    mods = [p.new_module(rv.modules.MODULE_CLASSES[t]) for t, _, _, _, _ in targets]
+    mc = p.new_module(api.m.MultiCtl)
+    mc >> mods
+    mc.gain, mc.quantization = gain, quant
+    for i, (t, cname, wmin, wmax, unmapped) in enumerate(targets):
+        mp_ = mc.mappings.values[i]
+        mp_.min, mp_.max = wmin, wmax
+        mp_.controller = 0 if unmapped else type(mods[i]).controllers[cname].number
+    before = [{n: val(getattr(m, n)) for n in type(m).controllers} for m in mods]
+    rles = [[] for _ in mods]
+    outcome, bad = "ok", -1
+    for v in range(0, 32769):
+        try:
+            mc.value = v
+        except Exception as e:
+            outcome, bad = "exception:" + type(e).__name__, v
+            break
+        for i, (t, cname, _, _, _) in enumerate(targets):
+            d = val(getattr(mods[i], cname))
+            if rles[i] and rles[i][-1][0] == d:
+                rles[i][-1][1] += 1
+            else:
+                rles[i].append([d, 1])
+    out = []
+    for i, (t, cname, wmin, wmax, unmapped) in enumerate(targets):
+        vt = type(mods[i]).controllers[cname].value_type
+        others = all(val(getattr(mods[i], n)) == before[i][n] for n in before[i] if n != cname)
+        out.append({"op": "feed", "t": t, "ctl": cname, "lo": vt.min, "hi": vt.max, "gain": gain, "quant": quant, "wmin": wmin, "wmax": wmax,
+                    "curve": "default", "unmapped": unmapped, "initial": before[i][cname], "rle": rles[i], "outcome": outcome, "bad_input": bad,
+                    "others_unchanged": bool(others), "fanout": "%d targets, link %d" % (len(targets), i)})
+    return out
+
+
 def run(ctx):
     import rv.api as api
     import rv.modules
@@ -181,8 +222,23 @@ def run(ctx):
         quant = rnd.choice(QUANTS) if rnd.random() < 0.7 else rnd.randrange(32769)
         wmin, wmax = window_for(c)
         jobs.append((t, name, gain, quant, wmin, wmax, curve(), k % 10 == 9, ctx.seed + k))
+    # fan-out to 2-4 targets (distinct modules), with unmapped links at any position
+    mjobs = []
+    plain = [x for x in ranged if x[2]["kind"] == "range"]
+    for k in range(10 if q else 300):
+        tg = []
+        for j in range(rnd.randrange(2, 5)):
+            t, name, c = rnd.choice(plain)
+            wmin, wmax = rnd.choice(corners) if rnd.random() < 0.6 else (rnd.randrange(32769), rnd.randrange(32769))
+            tg.append((t, name, wmin, wmax, rnd.random() < 0.4))
+        if k % 2 == 0:
+            tg[0] = tg[0][:4] + (True,)          # an unmapped link BEFORE mapped ones
+            tg[-1] = tg[-1][:4] + (False,)
+        mjobs.append((tg, rnd.choice(GAINS), rnd.choice(QUANTS), ctx.seed + k))
     with mp.get_context("fork").Pool(16) as pool:
         feeds = pool.map(_feed, jobs, chunksize=1)
+        for fl in pool.map(_feed_multi, mjobs, chunksize=1):
+            feeds.extend(fl)
     for e in feeds:
         events.append(e)
         ctx.cov["evaluations"] += 32769
